@@ -226,6 +226,29 @@ func enumerate(vs []checks.Variant, pbs map[string]probe, thorough bool) []scen 
 			}
 		}
 	}
+	// family F: one send of X refused by its transport (temporary error) at each position of the handshake, on
+	// variants whose flights span several datagrams too; then a reliable network / silence
+	for _, v := range vs {
+		if v.Name != "12-cert" && v.Name != "12-mtu100" && v.Name != "13-mtu200" && v.Name != "13-direct" {
+			continue
+		}
+		pb := pbs[v.Name]
+		for X := cli; X <= srv; X++ {
+			maxK := 8
+			if v.Name == "12-mtu100" || v.Name == "13-mtu200" {
+				maxK = 16
+			}
+			for k := 1; k <= maxK; k++ {
+				for _, nobo := range []bool{false, true} {
+					f := scen{V: v, Ivl: time.Second, NoBackoff: nobo, X: X, K: pb.nTo[X], SendFail: k}
+					add(f)
+					g := f
+					g.K, g.Mode = pb.nTo[X]/2, modeDeaf
+					add(g)
+				}
+			}
+		}
+	}
 	return out
 }
 
@@ -269,6 +292,11 @@ func runCase(t *testing.T, p *world.PKI, sc scen, pb probe, seed uint64) run.Out
 		texts = append(texts, "retransmission storm: "+res.Storm)
 	}
 	for _, v := range ev.Viol {
+		if sc.SendFail > 0 && v.Rule == "overdue" && v.Who == sc.X {
+			// an endpoint whose transport refused a send may give up: the duty to retransmit is not judged for it
+			// (what it DOES emit afterwards is still judged by every other rule)
+			continue
+		}
 		if o.Key == "" {
 			o.Key = fmt.Sprintf("%s:%s:%s:%s", v.Rule, sc.V.Name, v.Who, v.Ctx)
 		}
